@@ -382,6 +382,21 @@ func c19(c *Ctx) {
 						if f := cc.StaticCallee(); f != nil && f == wr {
 							continue
 						}
+						// a helper of the package: what it does with the parameter is judged the same way
+						if f := cc.StaticCallee(); f != nil && c.P.InPkg(f) && f.Blocks != nil {
+							args := cc.Args
+							good := true
+							for k, a := range args {
+								if a == v && k < len(f.Params) {
+									if okP, _ := benign(f.Params[k], fromCall, depth+1); !okP {
+										good = false
+									}
+								}
+							}
+							if good {
+								continue
+							}
+						}
 						return false, u
 					default:
 						return false, u
